@@ -17,8 +17,8 @@
    The unicode classes (unicode.IsLetter, unicode.IsDigit) are arbitrary predicates false of eof. *)
 (* source tie by translation: the lemmas of these files are obligations of this property *)
 From Soy Require Import Proofs.SourceTieLexer Proofs.SourceTieExpr Proofs.SourceTieParser Proofs.SourceTieText Proofs.SourceTieQuote.
-From Soy Require Import Model.Bytes Model.Outcome Model.Ast Model.Token Model.ExprParser Model.Parser Generated.Tables Model.Lexer Spec.LexSpec
-  Proofs.LexerPrim Proofs.LexerProofs Proofs.ParserMeasure Proofs.ParserProofs Proofs.LexParseBridge.
+From Soy Require Import Model.Bytes Model.Outcome Model.Ast Model.Token Model.ExprParser Model.Parser Generated.Tables Model.Lexer Model.ParseBytes Spec.LexSpec
+  Proofs.LexerPrim Proofs.LexerProofs Proofs.LexShift Proofs.NumLitProofs Proofs.ParserMeasure Proofs.ParserProofs Proofs.LexParseBridge.
 Open Scope Z_scope.
 
 Theorem lex_total_linear : forall (uni_letter uni_digit : Z -> bool),
@@ -80,36 +80,54 @@ Proof. exact ParserProofs.parse_linear. Qed.
 Print Assumptions parse_linear.
 
 (* ---------- both halves: byte string -> items -> tree or error ---------- *)
-(* The scanner's items satisfy the parser theorems' hypotheses for EVERY input, except that float items
-   must denote floats of the parser model's domain (Model/NumLit.v parse_float: exactly representable
-   decimals) -- a restriction of the parser MODEL, kept as the hypothesis floats_ok.  The nested scanner of
-   parseQuotedExpr is a parameter satisfying lexq_wf. *)
+(* The scanner's items satisfy the parser theorems' hypotheses for EVERY input (the parser model is total
+   on float literals since Model/NumLit.v parse_float_round: no float-domain hypothesis is left).  The
+   nested scanner of parseQuotedExpr is the scanner model itself in expression mode ([lexq_model]);
+   strconv.Unquote is universally quantified. *)
 
-Theorem scan_items_wf : forall lim ts, scan_ok lim ts -> floats_ok ts -> items_wf lim ts.
-Proof. exact LexParseBridge.scan_items_wf. Qed.
+Theorem scan_items_wf : forall lim ts, scan_ok lim ts -> items_wf lim ts.
+Proof. exact LexParseBridge.scan_items_wf_all. Qed.
 Print Assumptions scan_items_wf.
 
 Theorem scan_eof_last : forall lim ts, scan_ok lim ts -> eof_last ts.
 Proof. exact LexParseBridge.scan_eof_last. Qed.
 Print Assumptions scan_eof_last.
 
+Theorem nested_scanner_wf : forall (uni_letter uni_digit : Z -> bool),
+  uni_letter (-1) = false -> uni_digit (-1) = false -> lexq_wf (lexq_model uni_letter uni_digit).
+Proof. exact LexParseBridge.lexq_model_wf. Qed.
+Print Assumptions nested_scanner_wf.
+
+(* lexExprAt at any base >= 0 sends the items of lexExpr, each position shifted by the base (a simulation of
+   the whole scanner model between the two runs, Proofs/LexShift.v) *)
+Theorem lex_expr_at_is_lex_expr_shifted : forall (uni_letter uni_digit : Z -> bool) (base : Z) (fuel : nat) (s : bstr) (ts : list tok),
+  0 <= base -> lex_items uni_letter uni_digit fuel true s = Ok ts ->
+  lex_items_at uni_letter uni_digit base fuel s = Ok (shift_items base ts).
+Proof. exact LexShift.lex_items_at_shift. Qed.
+Print Assumptions lex_expr_at_is_lex_expr_shifted.
+
+(* the parser model's conversion of float literals: the exact path (decimals that are exactly float64 values of
+   Num.v's window, used by C17's round-trip proofs) is a special case of the correctly rounded conversion
+   NumLit.parse_float_round, so newValueNode's float case is that conversion and nothing else *)
+Theorem float_exact_path_is_rounding : forall s f, NumLit.parse_float s = Some f -> NumLit.parse_float_round s = NumLit.FRVal f.
+Proof. exact NumLitProofs.parse_float_exact_is_rounded. Qed.
+Print Assumptions float_exact_path_is_rounding.
+
 Theorem soy_file_total_composed : forall (uni_letter uni_digit : Z -> bool),
   uni_letter (-1) = false -> uni_digit (-1) = false ->
-  forall (lexq : bstr -> list tok) (unq : bstr -> option bstr), lexq_wf lexq -> forall s : bstr,
+  forall (unq : bstr -> option bstr) (s : bstr),
   exists ts, lex_items uni_letter uni_digit (lex_budget s) false s = Ok ts /\
-    (floats_ok ts ->
-       is_tree_or_error (po_result (soy_file (N.of_nat (length s)) lexq unq ts)) /\
-       (recv_of (po_result (parse_file (N.of_nat (length s)) lexq unq parse_expr expr_fuel (file_fuel ts) ts)) <= length ts + 4)%nat).
-Proof. exact LexParseBridge.soy_file_total_composed. Qed.
+    is_tree_or_error (po_result (soy_file (N.of_nat (length s)) (lexq_model uni_letter uni_digit) unq ts)) /\
+    (recv_of (po_result (soy_file (N.of_nat (length s)) (lexq_model uni_letter uni_digit) unq ts)) <= length ts + 4)%nat.
+Proof. exact LexParseBridge.soy_file_total_all. Qed.
 Print Assumptions soy_file_total_composed.
 
 Theorem soy_expr_total_composed : forall (uni_letter uni_digit : Z -> bool),
   uni_letter (-1) = false -> uni_digit (-1) = false -> forall s : bstr,
   exists ts, lex_items uni_letter uni_digit (lex_budget s) true s = Ok ts /\
-    (floats_ok ts ->
-       is_tree_or_error (po_result (soy_expr (N.of_nat (length s)) ts)) /\
-       (recv_of (po_result (soy_expr (N.of_nat (length s)) ts)) <= length ts + 4)%nat).
-Proof. exact LexParseBridge.soy_expr_total_composed. Qed.
+    is_tree_or_error (po_result (soy_expr (N.of_nat (length s)) ts)) /\
+    (recv_of (po_result (soy_expr (N.of_nat (length s)) ts)) <= length ts + 4)%nat.
+Proof. exact LexParseBridge.soy_expr_total_all. Qed.
 Print Assumptions soy_expr_total_composed.
 
 (* Non-vacuity.  The hypotheses on the unicode classes hold of the regenerated tables; the tables are
@@ -150,3 +168,13 @@ Proof. vm_compute. reflexivity. Qed.
 Example scan_cut_soydoc_param : typs (lex_items_tbl false (b "/** @param ")) =
   [itemSoyDocStart; itemSoyDocParam; itemIdent; itemError].
 Proof. vm_compute. reflexivity. Qed.
+
+(* float literals outside the exact decimal domain no longer stop the parser model: 0.1 (not a dyadic
+   rational) and 1e400 (ErrRange) from their bytes *)
+Definition res_class (o : outcome (list tok * Z)) : N :=
+  match o with
+  | Ok (ts, _) => match po_result (soy_expr 5 ts) with POk _ _ => 1%N | PErr _ _ _ => 2%N | PCrash _ => 3%N | PFuel => 4%N end
+  | _ => 0%N
+  end.
+Example parse_inexact_float : res_class (lex_items_tbl true (b "0.1")) = 1%N /\ res_class (lex_items_tbl true (b "1e400")) = 2%N.
+Proof. vm_compute. split; reflexivity. Qed.
